@@ -1,22 +1,10 @@
-(* Proof/ChanWakeWitness.v -- schedules of the model (found by the extracted explorer,
-   replayed on the real classes by checks/C05.py) that end in a quiescent state where the
-   predicate of C05 fails: one per class excluded from C05_partial. *)
+(* Proof/ChanWakeWitness.v -- schedules of the model: the finding excluded from C05_partial
+   (found by the extracted explorer, replayed on the real classes by checks/C05.py) and a
+   non-trivial run taken from a trace of the real code. *)
 From Coq Require Import List ZArith Bool.
 From WV Require Import Lib.Conc Model.ChanWake Proof.ChanWakeInv.
 Import ListNotations.
 Open Scope Z_scope.
-
-(* outbuf_high_watermark = 0 (F23): the producer waits while total > 0, the consumer
-   notifies only if total < 0 *)
-Definition cfg_hw0 : cfg := mkCfg 0 2 0 false.
-Definition sched_hw0 : list choice := [CIo; CIo; CIo; CIo; CIo; CIo; CIo; CClient [IReq]; CIo; CIoRecv true false; CIo; CIo; CIo; CIo; CIo; CIo; CIo; CIo; CIo; CIo; CIo; CW 0; CW 0; CW 0; CWApp 0 (Some 3) false; CW 0; CW 0; CW 0; CW 0; CW 0; CIo; CW 0; CWSend 0 SZero; CW 0; CW 0; CWApp 0 (Some 1) false; CW 0; CW 0; CW 0; CWSend 0 SZero; CW 0; CW 0; CW 0; CIo; CIo; CIo; CW 0; CIo; CIoSend (SOk 3); CIo; CIo; CIo; CIo; CIo; CIo; CIo; CIo; CIo; CIo; CIo].
-
-(* park after close: _flush_outbufs_below_high_watermark called at the end of service()
-   (len(requests) > 1) reads total > high_watermark, the I/O thread closes the channel, the
-   worker's flush raises on the closed socket, and the exception branch waits for a notify
-   that handle_close has already given *)
-Definition cfg_pac : cfg := mkCfg 1 2 2 true.
-Definition sched_pac : list choice := [CIo; CIo; CIo; CIo; CIo; CIo; CIo; CClient [IReq; IReq]; CIo; CIoRecv true false; CIo; CIo; CIo; CIo; CIo; CIo; CIo; CIo; CIo; CIo; CIo; CW 0; CW 0; CW 0; CWApp 0 (Some 3) false; CW 0; CW 0; CW 0; CW 0; CW 0; CW 0; CWSend 0 SErr; CIo; CIo; CIo; CIo; CIo; CIo; CIo; CIo; CW 0; CW 0; CIo; CWApp 0 None false; CW 0; CW 0; CIoClose true; CIo; CIo; CIo; CIo; CW 0; CWSend 0 SErr; CW 0; CIo; CW 0; CW 1].
 
 (* the head of an expecting request arrives while a request is in service; at the end of
    service() the worker executes send_continue, whose flush is NOT wrapped by _flush_exception:
@@ -30,19 +18,6 @@ Definition bad_quiescent (c : cfg) (nw : nat) (sched : list choice) : bool :=
   let s := run (step c) (init nw) sched in
   quiescent_parked s && quiescent s && negb (c05_ok s).
 
-Lemma hw0_witness :
-  bad_quiescent cfg_hw0 1 sched_hw0 = true /\
-  in_kf_class (run (step cfg_hw0) (init 1) sched_hw0) = false /\
-  no_producer_parked (run (step cfg_hw0) (init 1) sched_hw0) = false.
-Proof. vm_compute. repeat split. Qed.
-
-Lemma pac_witness :
-  bad_quiescent cfg_pac 2 sched_pac = true /\
-  taint (run (step cfg_pac) (init 2) sched_pac) = false /\
-  existsb parked_after_close (ws (run (step cfg_pac) (init 2) sched_pac)) = true /\
-  no_producer_parked (run (step cfg_pac) (init 2) sched_pac) = false.
-Proof. vm_compute. repeat split. Qed.
-
 Lemma cont_witness :
   bad_quiescent cfg_cont 1 sched_cont = true /\
   taint (run (step cfg_cont) (init 1) sched_cont) = true /\
@@ -51,9 +26,9 @@ Proof. vm_compute. repeat split. Qed.
 
 (* a run taken from a trace of the real code (two pipelined requests, partial sends, the
    watermark wait at the end of the first service(), Connection: close on the second): it
-   ends in a quiescent state outside the finding classes, closed, with nothing pending *)
+   ends in a quiescent state outside the finding class, closed, with nothing pending *)
 Definition cfg_example : cfg := mkCfg 0 50 120 false.
-Definition sched_example : list choice := [CW 0; CW 1; CIo; CIo; CIo; CIo; CIo; CIo; CIo; CClient [IReq; IReq]; CIo; CIoRecv true false; CIo; CIo; CIo; CIo; CIo; CIo; CIo; CIo; CIo; CIo; CIo; CIo; CIo; CIo; CIo; CIo; CIo; CW 0; CW 0; CW 0; CWApp 0 (Some 95) false; CW 0; CW 0; CW 0; CW 0; CW 0; CW 0; CWSend 0 (SOk 20); CWSend 0 SZero; CW 0; CW 0; CW 0; CWApp 0 (Some 10) false; CW 0; CW 0; CW 0; CW 0; CW 0; CW 0; CWSend 0 (SOk 85); CW 0; CW 0; CW 0; CWApp 0 (Some 300) false; CW 0; CW 0; CW 0; CW 0; CW 0; CW 0; CWSend 0 (SOk 90); CWSend 0 SZero; CW 0; CW 0; CW 0; CWApp 0 None false; CW 0; CW 0; CW 0; CWSend 0 (SOk 210); CW 0; CW 0; CW 0; CW 0; CW 0; CW 0; CW 0; CW 0; CW 0; CW 0; CW 0; CW 0; CW 0; CW 0; CWApp 0 (Some 112) false; CW 0; CW 0; CW 0; CW 0; CW 0; CW 0; CWSend 0 (SOk 112); CW 0; CW 0; CW 0; CWApp 0 (Some 5) false; CW 0; CW 0; CW 0; CW 0; CW 0; CW 0; CW 0; CWApp 0 None true; CW 0; CW 0; CW 0; CW 0; CW 0; CW 0; CW 0; CW 1; CIo; CIo; CIo; CIo; CIo; CIo; CIo; CIoSend (SOk 5); CIo; CIo; CIo; CIo; CIo; CIo; CIo; CIo; CIo; CIo; CIoClose false; CIo; CIo; CIo; CIo].
+Definition sched_example : list choice := [CW 0; CW 1; CIo; CIo; CIo; CIo; CIo; CIo; CIo; CClient [IReq; IReq]; CIo; CIoRecv true false; CIo; CIo; CIo; CIo; CIo; CIo; CIo; CIo; CIo; CIo; CIo; CIo; CIo; CIo; CIo; CIo; CIo; CW 0; CW 0; CW 0; CWApp 0 (Some 95) false; CW 0; CW 0; CW 0; CW 0; CW 0; CW 0; CWSend 0 (SOk 20); CWSend 0 SZero; CW 0; CW 0; CW 0; CWApp 0 (Some 10) false; CW 0; CW 0; CW 0; CW 0; CW 0; CW 0; CWSend 0 (SOk 85); CW 0; CW 0; CW 0; CWApp 0 (Some 300) false; CW 0; CW 0; CW 0; CW 0; CW 0; CW 0; CWSend 0 (SOk 90); CWSend 0 SZero; CW 0; CW 0; CW 0; CWApp 0 None false; CW 0; CW 0; CW 0; CW 0; CWSend 0 (SOk 210); CW 0; CW 0; CW 0; CW 0; CW 0; CW 0; CW 0; CW 0; CW 0; CW 0; CW 0; CW 0; CW 0; CW 0; CWApp 0 (Some 112) false; CW 0; CW 0; CW 0; CW 0; CW 0; CW 0; CWSend 0 (SOk 112); CW 0; CW 0; CW 0; CWApp 0 (Some 5) false; CW 0; CW 0; CW 0; CW 0; CW 0; CW 0; CW 0; CWApp 0 None true; CW 0; CW 0; CW 0; CW 0; CW 0; CW 0; CW 0; CW 1; CIo; CIo; CIo; CIo; CIo; CIo; CIo; CIoSend (SOk 5); CIo; CIo; CIo; CIo; CIo; CIo; CIo; CIo; CIo; CIo; CIoClose false; CIo; CIo; CIo; CIo].
 
 Lemma example_run :
   let s := run (step cfg_example) (init 2) sched_example in
@@ -61,28 +36,8 @@ Lemma example_run :
   inv_ok cfg_example s = true.
 Proof. vm_compute. repeat split. Qed.
 
-Lemma refuted_watermark0 :
-  exists c nw sched, hw c = 0 /\
-    let s := run (step c) (init nw) sched in
-    quiescent_parked s = true /\ in_kf_class s = false /\ no_producer_parked s = false.
-Proof.
-  exists cfg_hw0, 1%nat, sched_hw0. destruct hw0_witness as (H1 & H2 & H3).
-  unfold bad_quiescent in H1. apply andb_prop in H1. destruct H1 as [H1 _]. apply andb_prop in H1. destruct H1 as [H1 _].
-  repeat split; assumption.
-Qed.
-
-Lemma refuted_park_after_close :
-  exists c nw sched, 1 <= hw c /\
-    let s := run (step c) (init nw) sched in
-    quiescent_parked s = true /\ taint s = false /\ no_producer_parked s = false.
-Proof.
-  exists cfg_pac, 2%nat, sched_pac. destruct pac_witness as (H1 & H2 & H3 & H4).
-  unfold bad_quiescent in H1. apply andb_prop in H1. destruct H1 as [H1 _]. apply andb_prop in H1. destruct H1 as [H1 _].
-  repeat split; try assumption. unfold cfg_pac; simpl; discriminate.
-Qed.
-
-Lemma refuted_worker_continue :
-  exists c nw sched, 1 <= hw c /\
+Lemma refuted_continue_raises :
+  exists c nw sched, 0 <= hw c /\
     let s := run (step c) (init nw) sched in
     quiescent_parked s = true /\ taint s = true /\ no_pending_output s = false.
 Proof.
